@@ -68,7 +68,11 @@ class StubPool:
     def __init__(self, n=None):
         pass
 
-    def map(self, f, items):
+    def map(self, f, items, chunksize=None):
+        if chunksize is not None and chunksize < 1:
+            if chunksize < 0:
+                raise ValueError("Stop argument for islice() must be None or an integer: 0 <= x <= sys.maxsize.")
+            items = []          # a chunk size of 0 yields no chunk: nothing runs
         excs = []
         for it_ in list(items):
             try:
@@ -84,6 +88,36 @@ class StubPool:
         if excs:
             raise excs[0]
         return []
+
+    def map_async(self, f, items, chunksize=None, callback=None, error_callback=None):
+        """Tasks run at once (sequentially); the handle behaves as multiprocessing.pool.MapResult: wait() never raises,
+        get() re-raises the first exception of a task."""
+        try:
+            value, exc = self.map(f, items), None
+        except Exception as ex:
+            value, exc = None, ex
+
+        class Handle:
+            def wait(self, timeout=None):
+                return None
+
+            def ready(self):
+                return True
+
+            def successful(self):
+                return exc is None
+
+            def get(self, timeout=None):
+                if exc is not None:
+                    raise exc
+                return value
+        return Handle()
+
+    def imap(self, f, items, chunksize=1):
+        for it_ in list(items):
+            yield f(it_)
+
+    imap_unordered = imap
 
     def close(self):
         pass
